@@ -60,7 +60,17 @@ class HistMin(Hist):
         # the argument may have been edited in place (all-trivial branch): re-read it; it must still be a circuit
         try:
             s.net, s.users = observe.snap(s.real)
+            if observe.wf(s.real, s.net, s.users, with_copy=False):
+                # the argument was edited in place and is no longer a well-formed circuit: nothing any listed property
+                # promises; it just is not raw material for the other checks any more
+                self.res.cross.bump('minimize_subcircuits-left-its-argument-ill-formed')
+                self.pop.remove(s)
             new = self.new_slot(result) if result is not s.real else s
+            if observe.wf(new.real, new.net, new.users, with_copy=False):
+                self.res.cross.bump('C04:minimised-result-ill-formed')
+                if new in self.pop:
+                    self.pop.remove(new)
+                return
             if pre_tt is not None and self.tt_of(new.net) != pre_tt:
                 self.res.cross.bump('C04:minimised-member-not-equivalent')
         except Exception:
